@@ -449,6 +449,8 @@ class G:
         elif base == "image":
             if P("p_params", 0.6):
                 c["parameters"] = "max-pixels=" + str(self.integer(100, 4000))
+                if "appearance" not in c and P("_", 0.3):
+                    c["parameters"] += " app=" + self.pick(["com.example.camera", "com.google.android.GoogleCamera", "org.Cam.X1"])
         elif base == "audio" and P("p_params", 0.3):
             c["parameters"] = "quality=" + self.pick(["voice-only", "low", "normal", "external"])
         elif base in ("geopoint", "geotrace", "geoshape") and P("p_params", 0.3):
@@ -492,6 +494,8 @@ class G:
                 c["label"] = self.text("L")
             if self.P.get("p_trigger_logic", 0) and self.p("p_trigger_logic"):
                 self.add_logic(c, base, inside_repeat)   # columns to the right of the calculation column
+        elif self.P.get("p_label_on_hidden", 0) and self.p("_", 0.4):
+            c["label"] = self.text("L")      # a label for data dictionaries: a background-geopoint is never shown
         self.names.append(nm)
         if inside_repeat:
             self.in_repeat_names[nm] = inside_repeat
@@ -614,9 +618,17 @@ class G:
                 pass
             inner_rep = nm if kind == "r" else inside_repeat
             if table_list is not None:
-                for _ in range(self.integer(1, 3)):
+                for i in range(self.integer(1, 3)):
                     self.rows += 1
                     node["ch"].append(self.question(depth + 1, inner_rep, table_list=table_list))
+                    if self.P.get("p_table_list_nested", 0) and self.p("p_table_list_nested"):
+                        # a plain group inside the table-list group: it neither ends the table-list nor belongs to it
+                        self.rows += 2
+                        gname = self.name("g")
+                        self.sections.append(gname)
+                        inner_q = self.question(depth + 2, inner_rep) if self.p("_", 0.5) else self.question(depth + 2, inner_rep, table_list=None)
+                        grp = {"k": "g", "c": {"name": gname, "label": self.text("NG")}, "ch": [inner_q]}
+                        node["ch"].insert(self.integer(0, len(node["ch"])), grp)
             else:
                 node["ch"] = self.nodes(depth + 1, inner_rep)
                 if not any(ch["k"] != "x" for ch in node["ch"]):
